@@ -467,6 +467,7 @@ type monC08 struct {
 	liveInAtContinue map[int]int  // hand -> seated-in players with chips when its continue interval elapsed
 	pauseAtContinue  map[int]bool // hand -> pause condition (break or too few players with chips) at that moment
 	seenSnap         int
+	liveInAtGate     map[int]int   // hand -> seated-in players with chips at the last quiescent point before the next hand's gate completed
 	settledAt        map[int]int64 // hand -> virtual time of settlement
 	openedAt         map[int]int64
 	interval         int64
@@ -474,7 +475,7 @@ type monC08 struct {
 }
 
 func newMonC08(h *hist, interval int) *monC08 {
-	return &monC08{settledAt: map[int]int64{}, openedAt: map[int]int64{}, interval: int64(interval), h: h, liveInAtContinue: map[int]int{}, pauseAtContinue: map[int]bool{}}
+	return &monC08{liveInAtGate: map[int]int{}, settledAt: map[int]int64{}, openedAt: map[int]int64{}, interval: int64(interval), h: h, liveInAtContinue: map[int]int{}, pauseAtContinue: map[int]bool{}}
 }
 
 func (m *monC08) liveIn(t *pt.Table) int {
@@ -502,6 +503,25 @@ func (m *monC08) Quiescent(td *TD, p Pending) *Viol {
 					}
 				}
 				m.pauseAtContinue[cur.State.GameCount] = cur.State.BlindState.IsBreaking() || alive < cur.Meta.TableMinPlayerCount
+			}
+		}
+	}
+	// ... and again while the next hand's gate is waiting (set up, not everybody heard from, timeout pending): a
+	// player who sits in during that wait is seated-in when the opening is decided
+	if cur.State.Status == pt.TableStateStatus_TableGameStandby {
+		if og := pt.VerifOpenGameManager(td.te); og != nil {
+			gs := og.GetState()
+			pendingGate := gs.GameCount == cur.State.GameCount+1 && len(gs.Participants) > 0
+			if pendingGate {
+				all := true
+				for _, p := range gs.Participants {
+					if !p.IsReady {
+						all = false
+					}
+				}
+				if !all {
+					m.liveInAtGate[cur.State.GameCount] = m.liveIn(cur)
+				}
 			}
 		}
 	}
@@ -577,7 +597,7 @@ func (m *monC08) End(td *TD) *Viol {
 		if shouldPause && m.pauseAtContinue[st.GameCount] {
 			return &Viol{Key: "did-not-pause", Detail: fmt.Sprintf("after hand %d: break=%v, %d players with chips (minimum %d), but the table stays in standby", st.GameCount, st.BlindState.IsBreaking(), alive, t.Meta.TableMinPlayerCount)}
 		}
-		if liveIn >= 2 && m.liveInAtContinue[st.GameCount] >= 2 && !m.h.lateLeave[st.GameCount] {
+		if liveIn >= 2 && (m.liveInAtContinue[st.GameCount] >= 2 || m.liveInAtGate[st.GameCount] >= 2) && !m.h.lateLeave[st.GameCount] {
 			sm := pt.VerifSeatManager(td.te)
 			og := pt.VerifOpenGameManager(td.te)
 			return &Viol{Key: "wedged-in-standby", Detail: fmt.Sprintf("after hand %d settled the table stays in standby for ever: %d seated-in players have chips, no timer is pending and nothing is runnable\nblocked: %v\nseat manager: %s\ngate: %+v\nerrors: %v", st.GameCount, liveIn, td.env.Blocked(), seatManagerString(sm), og.GetState(), td.errs)}
